@@ -8,11 +8,14 @@
   the caller passes fresh objects) this gives: never both, never twice, nothing leaks.
 
   PARTIAL: proved for insert (new key / overwrite in either table, including the carried elements —
-  moved, never copied), removals, clear, growth / carry / carry_all, dropping the map; the
-  iterator-drop cases (drain / drain_filter / into_iter prefixes) and the entry API's displaced
-  keys rest on the lock-step of per-call dropped / returned ids.
+  moved, never copied), removals, clear, growth / carry / carry_all, dropping the map, `retain`
+  and `drain_filter` (pulled any number of times, then dropped or forgotten); `drain` / `into_iter`
+  prefixes and the entry API's displaced keys rest on the lock-step of per-call dropped / returned
+  ids.  Under an injected panic: `C07.insert_call_hash_panic_safe`,
+  `C07.replace_call_closure_panic_safe`.
 -/
 import GriddleModel.Lemmas.Steps
+import GriddleModel.Lemmas.Ledger
 namespace Griddle.C06
 
 /-- `insert`: conservation of key and value objects, whichever table held the key. -/
@@ -75,5 +78,72 @@ theorem ids_nodup_insert_new (c : Cfg) (hR : 0 < c.R) (t : Raw) (e : Entry) (hit
     (h : Inv c.R t) (hfresh : e.k ∉ keysOf t.ents) (hids : (idsOf (e :: t.ents)).Nodup) :
     OkOrCap (Raw.insert c t e hits perm) (fun r => (idsOf r.1.ents).Nodup) :=
   (Raw.insert_spec c hR t e hits perm h hfresh).mono (fun _ hs => (idsOf_perm hs.2.1).nodup_iff.2 hids)
+
+/-- `retain(f)`: every object is still stored or was dropped by the call, exactly once; nothing is
+    handed back. -/
+theorem ledger_retain {R : Nat} (hR : 0 < R) (m : Map) (p : Pred) (o : Orc) (h : Inv R m) :
+    OkOr (Map.retain m p o) (fun r =>
+      (idsOf r.1.ents ++ r.2.cost.dropped).Perm (idsOf m.ents) ∧ r.2.returned = []) := by
+  unfold Map.retain
+  cases hok : Map.iterOrderOk m o.calls with
+  | false => simp [OkOr]
+  | true =>
+    simp only [Bool.not_true, Bool.false_eq_true, if_false]
+    obtain ⟨hpl, hnd, _⟩ := placed_of_iterOrderOk m o.calls h hok
+    obtain ⟨m', c', hr, _⟩ := retainLoop_spec hR p m.main.ents.length o.calls 0 m o.empt {} h hnd hpl
+    have hl := retainLoop_ledger hR p m.main.ents.length o.calls 0 m o.empt {} m' c' h hnd hpl hr
+    rw [hr]
+    simp only [OkOr]
+    refine ⟨?_, trivial⟩
+    simpa using hl
+
+/-- `drain_filter(f)` pulled `take` times, then dropped or forgotten: every object is still stored,
+    was handed to the caller (the yielded pairs), or was dropped by the iterator's destructor —
+    exactly one of the three. -/
+theorem ledger_drain_filter {R : Nat} (hR : 0 < R) (m : Map) (p : Pred) (take : Nat) (forget : Bool) (o : Orc)
+    (h : Inv R m) :
+    OkOr (Map.drainFilter m p take forget o) (fun r =>
+      (idsOf r.1.ents ++ r.2.returned ++ r.2.cost.dropped).Perm (idsOf m.ents) ∧
+      (forget = true → r.2.cost.dropped = [])) := by
+  unfold Map.drainFilter
+  cases hok : Map.iterOrderOk m o.calls with
+  | false => simp [OkOr]
+  | true =>
+    simp only [Bool.not_true, Bool.false_eq_true, if_false]
+    obtain ⟨hpl, hnd, hcov⟩ := placed_of_iterOrderOk m o.calls h hok
+    obtain ⟨m1, ys, c1, ro, pre, hr, hks, hi, ha, hy, hpl1, _, htk, _⟩ :=
+      drainFilterLoop_spec hR p m.main.ents.length o.calls 0 m o.empt (some take) [] {} h hnd hpl
+    obtain ⟨hl1, hd1⟩ := drainFilterLoop_ledger hR p m.main.ents.length o.calls 0 m o.empt (some take) [] {}
+      m1 ys c1 ro h hnd hpl hr
+    rw [hr]
+    dsimp only
+    have hd1' : c1.dropped = [] := hd1
+    have hl1' : (idsOf m1.ents ++ idsOf ys).Perm (idsOf m.ents) := by simpa [idsOf] using hl1
+    cases forget with
+    | true =>
+      simp only [if_true, OkOr]
+      refine ⟨?_, fun _ => hd1'⟩
+      rw [hd1', List.append_nil]; exact hl1'
+    | false =>
+      simp only [Bool.false_eq_true, if_false]
+      have hlen : o.calls.length - ro.length = 0 + pre.length := by rw [hks]; simp
+      rw [hlen]
+      have hndro : ro.Nodup := by rw [hks] at hnd; exact (List.nodup_append.1 hnd).2.1
+      obtain ⟨m2, ys2, c2, ro2, pre2, hr2, _⟩ :=
+        drainFilterLoop_spec hR p m.main.ents.length ro (0 + pre.length) m1
+          (o.empt - (ys.filter (fun e => (m.main.find? e.k).isSome)).length) none [] {} hi hndro hpl1
+      obtain ⟨hl2, hd2⟩ := drainFilterLoop_ledger hR p m.main.ents.length ro (0 + pre.length) m1
+        (o.empt - (ys.filter (fun e => (m.main.find? e.k).isSome)).length) none [] {} m2 ys2 c2 ro2 hi hndro hpl1 hr2
+      rw [hr2]
+      simp only [OkOr]
+      refine ⟨?_, fun hc => (by cases hc)⟩
+      have hd2' : c2.dropped = [] := hd2
+      have hl2' : (idsOf m2.ents ++ idsOf ys2).Perm (idsOf m1.ents) := by simpa [idsOf] using hl2
+      simp only [Cost.add_dropped, hd1', hd2', List.nil_append]
+      -- I(m2) ++ I(ys) ++ I(ys2) ~ (I(m2) ++ I(ys2)) ++ I(ys) ~ I(m1) ++ I(ys) ~ I(m)
+      have s1 : (idsOf m2.ents ++ idsOf ys ++ idsOf ys2).Perm ((idsOf m2.ents ++ idsOf ys2) ++ idsOf ys) := by
+        simp only [List.append_assoc]
+        exact List.Perm.append_left _ List.perm_append_comm
+      exact s1.trans ((List.Perm.append_right _ hl2').trans hl1')
 
 end Griddle.C06
